@@ -15,6 +15,9 @@ type orderCase struct {
 	Chain []Elem `json:"chain"`
 	Req   Req    `json:"req"`
 	Route string `json:"route"` // yaml | go
+	// Builds: how many times BuildChain is called on the same configuration value (validation
+	// pass + real build, rebuild on reload); the request is served by the last handler built.
+	Builds int `json:"builds,omitempty"`
 }
 
 // runOrderCase builds the chain and serves the request; returns "" or the disagreement.
@@ -32,6 +35,9 @@ func runOrderCase(c orderCase) (Observation, Prediction, string) {
 		}
 	}
 	h, err := plugins.BuildChain(pc, terminal())
+	for b := 1; b < c.Builds && err == nil; b++ {
+		h, err = plugins.BuildChain(pc, terminal())
+	}
 	if err != nil {
 		for _, e := range c.Chain {
 			if e.Kind == "custom-auth" && edgeKey(e.Key) {
@@ -117,7 +123,7 @@ func TestC17OrderEnumerated(t *testing.T) {
 	const name = "order-gating-enumerated"
 	maxLen := lab.Scale(3, 4)
 	sub := lab.Sub(name, fmt.Sprintf("ALL sequences of length 0..%d over {probe, logging, headers, size_limit(16), gzip, custom-auth(alpha), request-id} "+
-		"(every permutation of every sub-multiset), built from generated YAML text through yaml.v3, x 6 request classes (X-API-Key right/wrong/absent x declared body 4/40 bytes); "+
+		"(every permutation of every sub-multiset), built from generated YAML text through yaml.v3, x 6 request classes (X-API-Key right/wrong/absent x declared body 4/40 bytes) x 2 variants (plain request on the first build; 'Upgrade: websocket' offer served by the second handler built from the same configuration value); "+
 		"oracle: probe trace = enter in configured order with the request marks of exactly the earlier headers/request-id instances, terminal, exit in reverse; on rejection probes/terminal after the "+
 		"rejecter never run, client gets 401/413 and only the response marks of earlier plugins; non-trivial = rejection with a probe on each side, or accepted with >= 2 position-observable elements", maxLen))
 	var rc orderCase
@@ -136,12 +142,19 @@ func TestC17OrderEnumerated(t *testing.T) {
 		idx++
 		if idx%lab.Shards() == lab.Shard() {
 			for _, rq := range enumReqs {
-				c := orderCase{Chain: append([]Elem{}, prefix...), Req: rq, Route: "yaml"}
-				obs, pred, d := runOrderCase(c)
-				nt, labels := classify(c, pred)
-				sub.Case(c, nt, labels...)
-				if d != "" && d != refused {
-					lab.Violation(t, name, c, "chain %v request %+v: %s (observed %+v)", c.Chain, c.Req, d, obs)
+				// each (chain, request class) twice: plain on a single build, and as an upgrade
+				// offer served by the second handler built from the same configuration value
+				for variant := 0; variant < 2; variant++ {
+					c := orderCase{Chain: append([]Elem{}, prefix...), Req: rq, Route: "yaml", Builds: 1 + variant}
+					if variant == 1 {
+						c.Req.Dress = "upgrade-websocket"
+					}
+					obs, pred, d := runOrderCase(c)
+					nt, labels := classify(c, pred)
+					sub.Case(c, nt, labels...)
+					if d != "" && d != refused {
+						lab.Violation(t, name, c, "chain %v request %+v builds %d: %s (observed %+v)", c.Chain, c.Req, c.Builds, d, obs)
+					}
 				}
 			}
 		}
@@ -194,6 +207,7 @@ func genReq(rt *rapid.T) Req {
 		Body:    rapid.SampledFrom([]int{0, 4, 40, 200}).Draw(rt, "body"),
 		Gzip:    rapid.Bool().Draw(rt, "accept_gzip"),
 		ReqMark: rapid.SampledFrom([]string{"", "client"}).Draw(rt, "client_mark"),
+		Dress:   rapid.SampledFrom(append([]string{"", "", "", ""}, Dresses...)).Draw(rt, "dress"),
 	}
 }
 
@@ -266,11 +280,13 @@ func genReqFor(rt *rapid.T, chain []Elem) Req {
 func TestC17OrderSampled(t *testing.T) {
 	sub := lab.Sub("order-gating-sampled", "rapid: chains of length 4-5 over the seven kinds with per-instance apiKey in {alpha,beta} or (40%) an unusual non-empty key (whitespace-only, whitespace-padded, interior spaces, 2 KiB, non-ASCII), max_request_body in {default,16,100}, "+
 		"YAML rendering styles (block/flow, quoted/plain, int/float) or hand-built Go maps typed as yaml.v3 delivers them (50/50); requests: X-API-Key exact / absent / a near miss of the configured key (trimmed, padded, upper-cased, shortened) set verbatim on the *http.Request, body 0/4/40/200, "+
-		"Accept-Encoding gzip or not, client-sent mark; same oracle as the enumeration; non-trivial = rejection with >= 1 probe on each side of the rejecting plugin, or accepted with >= 2 position-observable elements")
+		"Accept-Encoding gzip or not, client-sent mark, request dressing in {none, Upgrade: websocket, Upgrade: h2c, Expect: 100-continue, PUT, PATCH, DELETE, Authorization header, Range}; BuildChain called 1..3 times on the same configuration value, the request served by the last handler built; same oracle as the enumeration; non-trivial = rejection with >= 1 probe on each side of the rejecting plugin, or accepted with >= 2 position-observable elements")
 	sub.NontrivialFloor(0.50)
 	sub.Floor("reject-between-probes", 0.10)
 	sub.Floor("route=yaml", 0.40)
 	sub.Floor("two-rejecters", 0.02)
+	sub.Floor("rebuilt", 0.30)
+	sub.Floor("dress=upgrade-websocket", 0.03)
 	lab.Check(t, sub, 1500, 50000, func(rt *rapid.T) {
 		n := rapid.IntRange(4, 5).Draw(rt, "len")
 		var chain []Elem
@@ -278,9 +294,16 @@ func TestC17OrderSampled(t *testing.T) {
 			chain = append(chain, genValidElem(rt, true))
 		}
 		sandwich(rt, chain, Elem{Kind: "probe"})
-		c := orderCase{Chain: chain, Req: genReqFor(rt, chain), Route: rapid.SampledFrom([]string{"yaml", "go"}).Draw(rt, "route")}
+		c := orderCase{Chain: chain, Req: genReqFor(rt, chain), Route: rapid.SampledFrom([]string{"yaml", "go"}).Draw(rt, "route"),
+			Builds: rapid.SampledFrom([]int{1, 1, 2, 3}).Draw(rt, "builds")}
 		obs, pred, d := runOrderCase(c)
 		nt, labels := classify(c, pred)
+		if c.Builds > 1 {
+			labels = append(labels, "rebuilt")
+		}
+		if c.Req.Dress != "" {
+			labels = append(labels, "dress="+c.Req.Dress)
+		}
 		if d == refused {
 			nt, labels = false, append(labels, "edge-key-config-refused")
 		}
